@@ -7,6 +7,11 @@ NOTES = ("All checks: ./check <ID> quick|thorough; exit 0 held / 1 VIOLATION / 2
          "every run. known_findings.json lists open findings and fixed: records; replays/<ID>/ holds committed regression cases.")
 NOT_APPLICABLE = {}
 CHECKS = {
+    "C15": {
+        "technique": "metamorphic property-based testing: generated type expressions with sequences of meaning-preserving rewrites (equal normal forms, hashes, loaders, dumpers, predicates) and single meaning-changing edits (unequal normal forms); idempotence; enumerated bare generics vs documented implicit parameters",
+        "text": "Exploration over generated spellings of one type: normalize_type must be a canonical form in both request orders (cold / warm LRU).",
+        "note": "Trusted: the rewrite catalogue (each rewrite is meaning-preserving by Python typing semantics); normalize_type is the only non-facade observation point, as the property says.",
+    },
     "C20": {
         "technique": "property-based testing: generated load / dump / collected-extras / convert calls made twice on the same argument; deep before/after snapshots and a type-directed identity (id()) scan of mutable containers across both results and the argument",
         "text": "Exploration: arguments are never mutated, repeated calls give equal results, and no mutable container adaptix builds is shared between two results or with the argument (except below Any/object positions).",
